@@ -246,7 +246,9 @@ pub trait SVDDecomposableMatrix<T: RealNumber>: BaseMatrix<T> {
                 let mut flag = true;
                 l = k;
                 while l != 0 {
-                    if l == 0 || rv1[l].abs() <= T::epsilon() * anorm {
+                    // (2 eps: an off-diagonal entry of 2 ulp(anorm) beside equal singular values is a
+                    // fixed point of the shifted sweep and would never be declared negligible at 1 eps)
+                    if l == 0 || rv1[l].abs() <= T::two() * T::epsilon() * anorm {
                         flag = false;
                         break;
                     }
